@@ -263,23 +263,38 @@ func (g *Gateway) queryHandler(w http.ResponseWriter, r *http.Request) {
 				}, nil
 			}
 
-			introspectionRes := g.parseIntrospectionQuery(plan, request)
-			if introspectionRes != nil {
-				introspectionRes.index = index
-				return introspectionRes, nil
+			// fields the gateway answers itself (__schema, __type, __typename of the root)
+			// and the steps that go to the services
+			internalFields, serviceSteps := g.resolveInternalFields(plan, request)
+			if len(serviceSteps) == 0 && internalFields != nil {
+				return &Result{
+					Data:   internalFields,
+					Errors: nil,
+
+					index: index,
+				}, nil
 			}
 
-			queryers := g.getQueryers(planningContext, plan.RootSteps)
+			queryers := g.getQueryers(planningContext, serviceSteps)
 
 			// fire the query
 			result, err = g.executor.Execute(&executor.ExecutionContext{
-				QueryPlan:               plan,
+				QueryPlan: &planner.QueryPlan{
+					RootSteps:   serviceSteps,
+					ScrubFields: plan.ScrubFields,
+				},
 				Request:                 request,
 				Queryers:                queryers,
 				GetParentTypeFromIDFunc: g.getParentTypeFromIDFunc,
 			})
 
 			plan.ScrubFields.Clean(result)
+
+			if result != nil {
+				for k, v := range internalFields {
+					result[k] = v
+				}
+			}
 
 			return &Result{
 				Errors: gqlerrors.FormatError(err),
@@ -299,24 +314,35 @@ func (g *Gateway) queryHandler(w http.ResponseWriter, r *http.Request) {
 
 }
 
-func (g *Gateway) parseIntrospectionQuery(plan *planner.QueryPlan, request *requests.Request) *Result {
+// resolveInternalFields answers the root steps planned for the gateway itself and
+// returns the remaining root steps, which go to the services.
+func (g *Gateway) resolveInternalFields(plan *planner.QueryPlan, request *requests.Request) (map[string]interface{}, []*planner.QueryPlanStep) {
+	var internalFields map[string]interface{}
+	serviceSteps := make([]*planner.QueryPlanStep, 0, len(plan.RootSteps))
 	for _, rs := range plan.RootSteps {
-		if rs.URL == common.InternalServiceName {
-			ir := &introspection.IntrospectionResolver{
-				Variables: request.Variables,
-			}
+		if rs.URL != common.InternalServiceName {
+			serviceSteps = append(serviceSteps, rs)
+			continue
+		}
+		ir := &introspection.IntrospectionResolver{
+			Variables: request.Variables,
+		}
 
-			introspectionFields := ir.ResolveIntrospectionFields(rs.SelectionSet, g.schema)
-			if introspectionFields != nil {
-				return &Result{
-					Data:   introspectionFields,
-					Errors: nil,
-				}
+		if internalFields == nil {
+			internalFields = make(map[string]interface{})
+		}
+		for k, v := range ir.ResolveIntrospectionFields(rs.SelectionSet, g.schema) {
+			internalFields[k] = v
+		}
+		// the root object's own __typename
+		for _, f := range common.SelectionSetToFields(rs.SelectionSet, nil) {
+			if f.Name == common.TypenameFieldName {
+				internalFields[f.Alias] = rs.ParentType
 			}
 		}
 	}
 
-	return nil
+	return internalFields, serviceSteps
 }
 
 func (g *Gateway) getQueryers(planningCtx *planner.PlanningContext, planSteps []*planner.QueryPlanStep) map[string]queryer.Queryer {
